@@ -211,6 +211,33 @@ fn vk_alloc_from_iter_threadname_n2() {
     }
 }
 
+// the same law at its corner: an EMPTY array is located at the current end of the image (offset law of C16: "returns a
+// location equal to that offset and size"), for every allocation route. Loop-free for n = 0: complete, not bounded.
+#[kani::proof]
+#[kani::unwind(4)]
+fn vk_alloc_empty_arrays_are_located_at_the_end() {
+    let (mut b, old) = buffer_with::<2>();
+    match MemoryArrayWriter::<MDRawThreadName>::alloc_from_iter(&mut b, Vec::<MDRawThreadName>::new()) {
+        Ok(w) => {
+            assert!(w.position as usize == 2 && w.array_size == 0);
+            assert!(w.location().rva == 2 && w.location().data_size == 0);
+            assert!(b.inner.len() == 2 && b.inner[0] == old[0] && b.inner[1] == old[1]);
+        }
+        Err(e) => { core::mem::forget(e); assert!(false); }
+    }
+    let none: [MDMemoryDescriptor; 0] = [];
+    match MemoryArrayWriter::<MDMemoryDescriptor>::alloc_from_array(&mut b, &none) {
+        Ok(w) => { assert!(w.position as usize == 2 && w.array_size == 0 && b.inner.len() == 2); }
+        Err(e) => { core::mem::forget(e); assert!(false); }
+    }
+    match MemoryArrayWriter::<MDRawThreadName>::alloc_array(&mut b, 0) {
+        Ok(w) => { assert!(w.position as usize == 2 && w.array_size == 0 && b.inner.len() == 2); }
+        Err(e) => { core::mem::forget(e); assert!(false); }
+    }
+    let w = MemoryArrayWriter::write_bytes(&mut b, &[]);
+    assert!(w.position as usize == 2 && w.array_size == 0 && b.inner.len() == 2);
+}
+
 // write_string_to_location: `<u32 byte length><UTF-16LE units>`; the location covers both.
 // The expected units are computed here from the Unicode definition of UTF-16 (an
 // independent spec, not std's encoder): a scalar below 0x10000 is one unit, otherwise the
